@@ -51,7 +51,7 @@ Section PackFacts.
   Proof.
     induction v as [|x r IH]; intros c s; cbn [Feature.pack_loop]; [reflexivity|].
     assert (Hs : pack_step s c x = pack_step s (c mod 8) x).
-    { unfold Feature.pack_step, LANES. rewrite Nat.mod_mod by lia. reflexivity. }
+    { unfold Feature.pack_step. change LANES with 8. rewrite Nat.mod_mod by lia. reflexivity. }
     rewrite Hs. rewrite (IH (S c)). rewrite (IH (S (c mod 8))). f_equal.
     change (S c) with (1 + c). change (S (c mod 8)) with (1 + c mod 8).
     rewrite Nat.add_mod_idemp_r by lia. reflexivity.
